@@ -453,6 +453,11 @@ func c17(r *ev.Run, replay string) {
 			{big.NewInt(-1), []int{0, 4}}, {big.NewInt(-1), []int{0, 4, 0}},
 			{one, []int{0, 1, 1, 1}}, {one, []int{0, 1, 0, 0}}, // more than three mask arguments
 			{one, []int{3}}, {big.NewInt(0), []int{0}}, {new(big.Int).Lsh(one, uint(bits-1)), []int{1}},
+			// windows far beyond the field whose offset or width is congruent to a valid one modulo
+			// 2^8 / 2^16 (arithmetic narrowed to a small integer type would accept them), and negative ones
+			{one, []int{256, 1}}, {one, []int{256 + 3, 2}}, {one, []int{0, 256 + 1}}, {one, []int{65536, 1}}, {one, []int{65536 + 3, 2}}, {big.NewInt(5), []int{65536 + 4, 4}},
+			{one, []int{0, 65536 + 1}}, {one, []int{2, 65536 + 2}}, {one, []int{65536, 65536 + 1}}, {one, []int{1 << 20, 1}}, {one, []int{0, 1 << 20}}, {one, []int{65536 + 3, 2, 1}}, {one, []int{65536 + 3, 2, 0}},
+			{one, []int{-1, 1}}, {one, []int{0, -1}}, {one, []int{-8, 4}}, {one, []int{4, -4}}, {one, []int{-1, 1, 0}}, {big.NewInt(0), []int{-65536, 1}},
 		}
 		for _, c := range cases {
 			for _, typ := range c17Types {
@@ -471,7 +476,7 @@ func c17(r *ev.Run, replay string) {
 			r.Violation("unknown-name", fmt.Sprintf("NewMatchField(%q, ...) returned %v, %v, panic %v", bogus, f, err, pn), c17Case{Name: bogus, Value: "1", Type: "uint8", Mask: []int{0, 1}})
 		}
 	}
-	r.Completed("X out-of-range inputs per width: value wider than field/window, window beyond the field, negative values, > 3 mask arguments, the one-argument form, unknown names")
+	r.Completed("X out-of-range inputs per width: value wider than field/window, window beyond the field, negative values, > 3 mask arguments, windows with offsets/widths of 2^8, 2^16, 2^20 and more, negative offsets/widths, the one-argument form, unknown names")
 	r.Set("states", calls)
 	r.Set("traces_validated_against_impl", calls)
 	r.Set("evaluations", calls)
